@@ -69,6 +69,13 @@ func inputHash(in []gabi.KeyshareUserChallengeInput[string]) []byte {
 }
 
 func runC14(r *mon.Run) {
+	// an issuer that rotated its key: two of the keys carry the same issuer name and differ in their counter only (within this
+	// process; the keyshare protocol identifies keys by the pair)
+	ka, kb := world.Fixture("fix1024a"), world.Fixture("fix1024b")
+	ka.PK.Issuer, kb.PK.Issuer = "rotating-issuer", "rotating-issuer"
+	kb.PK.Counter = ka.PK.Counter + 1
+	kb.SK.Counter = kb.PK.Counter
+	r.Set("keys_sharing_an_issuer_name", 2)
 	keyPool := []string{"toy512z", "fix1024a", "fix1024b"}
 	if r.Thorough() {
 		keyPool = []string{"toy512z", "fix1024a", "fix1024b", "fix2048a"}
